@@ -4,16 +4,18 @@
    (str(len(v)) + ":" + v per constituent, concatenated); [h] stands for xxh64(utf8(.)).hexdigest() and is
    universally quantified; [combined h sep df sel] is the returned frame for the combinations [sel] the sampler kept. *)
 From Coq Require Import List NArith ZArith Arith.
-From Outrank Require Import Features.Interact Features.InteractProofs.
+From Outrank Require Import Features.Interact Features.InteractProofs Features.InteractMI.
+From Outrank Require MI.Model.
 Import ListNotations.
 
 (* the encoding is injective on value tuples of arbitrary strings; no arity hypothesis is needed *)
 Theorem C10_enc_inj : forall t t' : list str, enc t = enc t' -> t = t'.
 Proof. exact enc_inj. Qed.
 
-(* equal value <-> equal tuples, up to collisions of the hash *)
-Theorem C10_equal_iff : forall h : str -> cell, (forall x y, h x = h y -> x = y) ->
-  forall t t', h (enc t) = h (enc t') <-> t = t'.
+(* equal value <-> equal tuples, up to collisions of the hash: here "the two hashed strings do not collide".
+   (The hypotheses below are never global injectivity of h, which no 16-hex-digit digest can satisfy.) *)
+Theorem C10_equal_iff : forall (h : str -> cell) t t', inj_on h [enc t; enc t'] ->
+  (h (enc t) = h (enc t') <-> t = t').
 Proof. exact equal_iff. Qed.
 
 (* rows that agree on every constituent get equal values, for any hash *)
@@ -36,25 +38,44 @@ Theorem C10_new_columns : forall h sep df sel,
   (forall nm, In nm (names (skipn (length df) (combined h sep df sel))) <-> In nm (map (join sep) sel)).
 Proof. exact combined_new_columns. Qed.
 
+(* [no_collision h df comb] := inj_on h (map enc (tuples df comb)): no collision among the strings hashed for this frame
+   and combination.  [incl comb (names df)]: the combination names columns of the frame (the code raises KeyError otherwise;
+   C10_candidates gives it for every candidate). *)
+
 (* row-level statement of the property *)
-Theorem C10_rows_iff : forall h : str -> cell, (forall x y, h x = h y -> x = y) ->
-  forall df comb i j, i < nrows df -> j < nrows df ->
+Theorem C10_rows_iff : forall (h : str -> cell) df comb i j,
+  incl comb (names df) -> no_collision h df comb -> i < nrows df -> j < nrows df ->
   (nth_error (feature_values h df comb) i = nth_error (feature_values h df comb) j
    <-> forall f, In f comb -> nth i (getcol df f) [] = nth j (getcol df f) []).
 Proof. exact rows_iff. Qed.
 
 (* the new column induces the same partition of the rows as the explicit value tuples ... *)
-Theorem C10_score : forall h : str -> cell, (forall x y, h x = h y -> x = y) ->
-  forall df comb, same_part (feature_values h df comb) (tuples df comb).
+Theorem C10_score : forall (h : str -> cell) df comb,
+  incl comb (names df) -> no_collision h df comb -> same_part (feature_values h df comb) (tuples df comb).
 Proof. exact feature_partition. Qed.
 
-(* ... hence every scorer that depends only on the partition gives it the score of the value tuples *)
-Theorem C10_score_equal : forall h : str -> cell, (forall x y, h x = h y -> x = y) ->
-  forall S (score : list N -> list N -> S) (cH : cell -> N) (cT : list cell -> N) df comb T,
+(* ... hence every scorer that depends only on the partition gives it the score of the value tuples ... *)
+Theorem C10_score_equal : forall (h : str -> cell) S (score : list N -> list N -> S) (cH : cell -> N) (cT : list cell -> N) df comb T,
+  incl comb (names df) -> no_collision h df comb ->
   partition_invariant score ->
   inj_on cH (feature_values h df comb) -> inj_on cT (tuples df comb) ->
   score (map cH (feature_values h df comb)) T = score (map cT (tuples df comb)) T.
 Proof. exact score_equal. Qed.
+
+(* ... in particular the MI family: the numba estimator transcribed in MI/Model.v ([core]; c = cardinality correction on/off;
+   T = coded target), for any category codings injective on the occurring values.  Proved from C02's relabelling theorem
+   (MI/Proofs.core_relabel); this one theorem lives over R and reports the four standard Reals axioms. *)
+Theorem C10_score_MI : forall (h : str -> cell) (cH : cell -> Z) (cT : list cell -> Z) df comb (T : list Z) (c : bool),
+  incl comb (names df) -> no_collision h df comb ->
+  length T = nrows df -> 0 < nrows df ->
+  inj_on cH (feature_values h df comb) -> inj_on cT (tuples df comb) ->
+  MI.Model.eval_R (MI.Model.core T (map cH (feature_values h df comb)) c)
+  = MI.Model.eval_R (MI.Model.core T (map cT (tuples df comb)) c).
+Proof. exact score_MI. Qed.
+
+(* the no-collision hypothesis is satisfiable on every frame *)
+Theorem C10_no_collision_satisfiable : forall df comb, no_collision (fun x => x) df comb.
+Proof. exact no_collision_id. Qed.
 
 (* the encoding before fix 3978e4d (plain concatenation) aliases ("1","11") with ("11","1"), for every hash *)
 Theorem C10_prefix_refuted : forall h : str -> cell,
@@ -93,6 +114,8 @@ Print Assumptions C10_new_columns.
 Print Assumptions C10_rows_iff.
 Print Assumptions C10_score.
 Print Assumptions C10_score_equal.
+Print Assumptions C10_score_MI.
+Print Assumptions C10_no_collision_satisfiable.
 Print Assumptions C10_prefix_refuted.
 Print Assumptions C10_old_partition_refuted.
 Print Assumptions C10_candidates.
